@@ -96,6 +96,64 @@ class Ctx:
         self.fail("shape-unrecognised", "%s|%s" % (rule, construct), where, msg)
 
 
+class RuleFilter:
+    """View of a Ctx that keeps only the instances/findings of the named rules (plus their floors, shape reports and missing
+    anchors): lets one property run a subset of another property's monolithic rule module without inheriting the rest of it."""
+
+    def __init__(self, ctx, rules):
+        self._ctx = ctx
+        self._rules = set(rules)
+
+    def __getattr__(self, name):
+        return getattr(self._ctx, name)
+
+    def _allowed(self, rule, construct):
+        if rule in self._rules:
+            return True
+        if rule == "shape-unrecognised":
+            return str(construct).split("|")[0] in self._rules
+        if rule.endswith(":floor"):
+            return rule[:-6] in self._rules
+        if rule == "anchor-missing":
+            c = str(construct)
+            return not c.endswith(":floor") or c[:-6] in self._rules
+        return False
+
+    def ok(self, rule, construct, what, nontrivial=True):
+        if self._allowed(rule, construct):
+            self._ctx.ok(rule, construct, what, nontrivial)
+
+    def fail(self, rule, construct, where, msg, detail=None):
+        if self._allowed(rule, construct):
+            self._ctx.fail(rule, construct, where, msg, detail)
+
+    def check(self, cond, rule, construct, where, what_ok, msg_fail, detail=None, nontrivial=True):
+        if cond:
+            self.ok(rule, construct, what_ok, nontrivial)
+        else:
+            self.fail(rule, construct, where, msg_fail, detail)
+        return cond
+
+    def anchor(self, key, rule="anchor"):
+        f = self._ctx.prog.fn(key)
+        if f is None:
+            self.fail("anchor-missing", key, None, "anchor function `%s` not found in the type-checked program (rule %s)" % (key, rule))
+            return None
+        self._ctx.analysed_fns.add(key)
+        return f
+
+    def floor(self, rule, count, minimum, what):
+        if count < minimum:
+            self.fail("anchor-missing", "%s:floor" % rule, None,
+                      "rule %s matched %d %s, expected at least %d (counted by hand) — the rule would pass vacuously" % (rule, count, what, minimum))
+            return False
+        self.ok(rule + ":floor", rule, "%d %s (floor %d)" % (count, what, minimum), nontrivial=False)
+        return True
+
+    def shape(self, rule, construct, where, msg):
+        self.fail("shape-unrecognised", "%s|%s" % (rule, construct), where, msg)
+
+
 def load_known(path=None):
     path = path or os.path.join(VERIF, "known_findings.jsonl")
     known = []
